@@ -3,7 +3,7 @@ import numpy as np
 from lib import common as C, het as H
 
 GEN = ['HetFacts']
-IMPORTS = ['C08/kernel_weights', 'C08/lottery_1d_laws', 'C08/lottery_2d_laws', 'C08/markov_laws', 'C08/combined_shock_product_rule', 'C17/robust_bracket', 'C17/coord_reproduces_query', 'C17/monotone_equals_robust']
+IMPORTS = ['C08/kernel_weights', 'C08/lottery_1d_laws', 'C08/lottery_2d_laws', 'C08/markov_laws', 'C08/multidim_index_algebra', 'C08/combined_shock_product_rule', 'C17/robust_bracket', 'C17/coord_reproduces_query', 'C17/monotone_equals_robust']
 TRUSTED = ['the economics of the backward functions (only their pointwise budget identity is validated, on every run)', 'C08 (mean-preserving lotteries), C09 (recursions)']
 ASSUMPTIONS = ['the aggregation theorem is proved over Z (a linear identity; valid in every commutative ring) and, for the executable forward pass, over the rationals; the pointwise budget identity of hh_sim, hh_labor, '
                'hh_twoasset and the aggregate identities along steady states, nonlinear paths and Jacobian columns are checked on the implementation; the executable forward pass covers the one-asset households (1-D lottery), not hh_twoasset']
